@@ -1,32 +1,36 @@
-"""Shows that every defect recorded as fixed in known_findings.json is still detected on the pinned tree.
+"""Shows that every defect recorded as fixed in known_findings.json is still detected on the tree where it was present.
 
     /venv/bin/python -B tools/pinned.py [Cnn ...]
 
-Extracts the pinned commit (dd1349e) to /var/tmp/akpy-pinned-<pid>, runs ./check Cnn (quick) with
-VERIF_REPO pointing at it, and requires a VIOLATION with the recorded signature. Removes the copy.
+For every `fixed` finding the tree is the commit named by its `present_at` field (default: the pinned commit
+dd1349e).  Each such tree is extracted to /var/tmp/akpy-pinned-<pid>-<commit>, ./check Cnn (quick) is run with
+VERIF_REPO pointing at it, and a VIOLATION with the recorded signature is required.  The copies are removed.
 """
 import json, os, re, shutil, subprocess, sys
 VERIF = os.path.dirname(os.path.dirname(os.path.abspath(__file__)))
+PINNED = "dd1349e"
 want = [a.upper() for a in sys.argv[1:]]
 kf = json.load(open(os.path.join(VERIF, "known_findings.json")))["findings"]
-by_prop = {}
+by = {}
 for k in kf:
     if k["status"] == "fixed":
-        by_prop.setdefault(k["property"], set()).add(k["signature"])
-dst = f"/var/tmp/akpy-pinned-{os.getpid()}"
-os.makedirs(dst)
+        by.setdefault((k.get("present_at", PINNED), k["property"]), set()).add(k["signature"])
 bad = 0
-try:
-    subprocess.run(f"git -C /repo archive dd1349e | tar -x -C {dst}", shell=True, check=True)
-    for prop in sorted(by_prop):
-        if want and prop not in want:
-            continue
-        env = dict(os.environ, VERIF_REPO=dst, VERIF_NO_EVIDENCE="1")
-        r = subprocess.run([os.path.join(VERIF, "check"), prop], cwd=VERIF, env=env, capture_output=True, text=True)
-        sigs = set(re.findall(r"violation \[([^\]]+)\]", r.stdout))
-        ok = r.returncode == 1 and by_prop[prop] <= sigs
-        print(f"{prop}: exit={r.returncode} expected={sorted(by_prop[prop])} reported={sorted(sigs)} -> {'detected' if ok else 'NOT DETECTED'}")
-        bad += not ok
-finally:
-    shutil.rmtree(dst, ignore_errors=True)
+for commit in sorted({c for c, _ in by}):
+    dst = f"/var/tmp/akpy-pinned-{os.getpid()}-{commit}"
+    os.makedirs(dst)
+    try:
+        subprocess.run(f"git -C /repo archive {commit} | tar -x -C {dst}", shell=True, check=True)
+        for (c, prop), sigs_want in sorted(by.items()):
+            if c != commit or (want and prop not in want):
+                continue
+            env = dict(os.environ, VERIF_REPO=dst, VERIF_NO_EVIDENCE="1")
+            r = subprocess.run([os.path.join(VERIF, "check"), prop], cwd=VERIF, env=env, capture_output=True, text=True)
+            sigs = set(re.findall(r"violation \[([^\]]+)\]", r.stdout))
+            ok = r.returncode == 1 and sigs_want <= sigs
+            print(f"{prop}@{commit}: exit={r.returncode} expected={sorted(sigs_want)} reported={sorted(sigs)} -> "
+                  f"{'detected' if ok else 'NOT DETECTED'}", flush=True)
+            bad += not ok
+    finally:
+        shutil.rmtree(dst, ignore_errors=True)
 sys.exit(1 if bad else 0)
